@@ -62,6 +62,9 @@ RULE = (
 
 
 def run_real(case: dict) -> list[str]:
+    if case.get("api") == "client":
+        from vlib import c19_client
+        return c19_client.run_client_case(case)
     return env.run_case(case)
 
 
@@ -77,6 +80,8 @@ def real_for_diff(case: dict, real: list[str]) -> list[str]:
 
 
 def model_input(case: dict, real: list[str]):
+    if case.get("api") == "client":
+        return None       # client layer (AsyncTCPNetworkClient closing / cancelling a connect in progress): oracle only
     if case.get("mode", "tracked") != "tracked":
         return None       # genuine socket module: socket()/bind()/close() are not observable line by line
     locs, addrs = _cfg_tokens(case)
@@ -138,6 +143,11 @@ STRICT_CANCEL = os.environ.get("VERIF_C19_STRICT_CANCEL", "1") != "0"
 
 
 def oracle(case: dict, real: list[str]) -> str | None:
+    if case.get("api") == "client":
+        from vlib import c19_client
+        if any(ln.startswith("harness-exc") for ln in real):
+            return f"run did not complete: {real[-1]}"
+        return c19_client.oracle(case, real)
     if any(ln.startswith(("harness-exc", "stalled")) for ln in real):
         return f"run did not complete: {real[-1]}"
     d = _parse(real)
@@ -203,6 +213,8 @@ def oracle(case: dict, real: list[str]) -> str | None:
 
 
 def nontrivial(case: dict, real: list[str]) -> str | None:
+    if case.get("api") == "client":
+        return f"client/{case['how']}/{case.get('then', 'none')}"
     d = _parse(real)
     # overlapping attempts: a conn while another one is pending
     pending, overlap = set(), False
@@ -260,6 +272,15 @@ def _drop_addr(case: dict, i: int) -> dict:
 
 
 def shrink(case: dict):
+    if case.get("api") == "client":
+        if len(case["addrs"]) > 1:
+            for i in range(len(case["addrs"])):
+                yield {**case, "addrs": case["addrs"][:i] + case["addrs"][i + 1:]}
+        if case.get("at", 0) > 0:
+            yield {**case, "at": case["at"] - 1}
+        if case.get("release", 0) > 0:
+            yield {**case, "release": case["release"] - 1}
+        return
     case = {k: v for k, v in case.items() if k != "g"}
     n = len(case["addrs"])
     if n > 1:
@@ -322,6 +343,8 @@ def corpus() -> list[dict]:
     # sequential path (datagram connection)
     cs.append({**base, "api": "seq", "addrs": [A(4, "err"), A(6, "err", False), A(6, "ok"), A(4, "ok")], "delay": None, "script": []})
     cs.append({**base, "api": "seq", "addrs": [A(4, "err"), A(6, "hang")], "delay": None, "script": [[], [["c", 0]], [], [["x"]]]})
+    from vlib import c19_client
+    cs.extend(c19_client.corpus())
     return cs
 
 
@@ -385,6 +408,9 @@ def _dense_case(rng) -> dict:
 
 
 def generate(rng, tier: str, boost: int):
+    from vlib import c19_client
+    for _ in range((150 if tier == "quick" else 1500) * boost):
+        yield c19_client.gen_case(rng)
     n = (5000 if tier == "quick" else 30000) * boost
     for _ in range(n):
         yield _dense_case(rng) if rng.random() < 0.35 else _rand_case(rng, 4)
